@@ -52,6 +52,21 @@ MkCapture(par) ==
   IN [ts |-> <<Tm("main", "", <<>>, main)>>, globals |-> NoVarsMap,
       runs |-> <<RunR("main", NoVarsMap, "D")>>, tag |-> "capture|" \o kind \o "|" \o form \o "|" \o asg]
 
+\* a value copied out of a loop stays what it was when a later range over another collection of the same type runs
+\* (rangers are pooled and reused)
+MkCapture2(par) ==
+  LET kind == par[2]  form == par[3]
+      capt == IF form = "none" THEN <<SetS("cs", "s", Ctx)>>
+              ELSE IF form = "k" THEN <<SetS("cs", "s", Var("k")), SetS("cx", "x1", Ctx)>>
+              ELSE <<SetS("cs", "s", Var("k")), SetS("cx", "x1", Var("v"))>>
+      rng1 == RangeS("rg", form, "k", "v", ":=", ListE(kind, Elems(kind)), capt)
+      els2 == IF kind = "ints" THEN <<"0", "1", "2", "3">> ELSE IF kind = "map" THEN <<"m2">> ELSE <<"f1", "f2", "f3">>
+      rng2 == RangeS("rg2", form, "k", "v", ":=", ListE(kind, els2), <<T("b2")>>)
+      main == <<T("pre"), LetS("ls", "s", Lit("s0")), LetS("lx", "x1", Lit("x0")), rng1, P("ms", Var("s")), P("mx", Var("x1")), rng2,
+                P("zs", Var("s")), P("zx", Var("x1")), T("post")>>
+  IN [ts |-> <<Tm("main", "", <<>>, main)>>, globals |-> NoVarsMap,
+      runs |-> <<RunR("main", NoVarsMap, "D"), RunR("main", NoVarsMap, "D")>>, tag |-> "capture2|" \o kind \o "|" \o form]
+
 \* names resolve in this execution only: the program (without a top-level :=, so that no deferred restore
 \* surrounds the construct) runs with Execute variables and fails inside the construct, then runs again
 \* without them
@@ -89,11 +104,12 @@ MkMapAlias(par) ==
 MkBuiltin(par) ==
   LET variant == par[2]  path == par[3]
       call == BCall("lower")
-      foc  == IF variant = "shadow" THEN <<P("f0", call), LetS("fl", "lower", Lit("FUNC:upper")), P("fb", call)>> ELSE <<P("fb", call)>>
+      foc  == IF variant = "shadow" THEN <<P("f0", call), LetS("fl", "lower", Lit("FUNC:upper")), P("fb", call), P("fbp", BPipe("lower")), P("fbc", BColon("lower"))>>
+              ELSE <<P("fb", call), P("fbp", BPipe("lower")), P("fbc", BColon("lower"))>>
       r    == Build(path, 1, foc)
       blk  == <<BlockS("bd", "bz", <<>>, NoE, <<P("bb", call)>>)>>
       main == <<T("pre"), P("ab", call)>> \o blk \o r.main \o
-              <<P("zb", call), LetS("zl", "lower", Lit("FUNC:upper")), YieldS("zy", "bz", <<>>, NoE), P("zz", call), T("post")>>
+              <<P("zb", call), LetS("zl", "lower", Lit("FUNC:upper")), YieldS("zy", "bz", <<>>, NoE), P("zz", call), P("zzp", BPipe("lower")), P("zzc", BColon("lower")), T("post")>>
       lib  == Tm("lib", "", <<>>, r.bl)
       vmf  == [NoVarsMap EXCEPT !["lower"] = "FUNC:vmf"]
       gl   == IF variant = "global" THEN [NoVarsMap EXCEPT !["lower"] = "FUNC:glf"] ELSE NoVarsMap
@@ -101,10 +117,11 @@ MkBuiltin(par) ==
       runs |-> <<RunR("main", NoVarsMap, "D"), RunR("main", vmf, "D"), RunR("main", NoVarsMap, "D")>>,
       tag |-> "builtin|" \o variant \o "|" \o PathTag(path)]
 
-MkC(par) == IF par[1] = "builtin" THEN MkBuiltin(par) ELSE IF par[1] = "mapalias" THEN MkMapAlias(par) ELSE IF par[1] = "path" THEN MkPath(par) ELSE IF par[1] = "residue" THEN MkResidue(par) ELSE MkCapture(par)
+MkC(par) == IF par[1] = "capture2" THEN MkCapture2(par) ELSE IF par[1] = "builtin" THEN MkBuiltin(par) ELSE IF par[1] = "mapalias" THEN MkMapAlias(par) ELSE IF par[1] = "path" THEN MkPath(par) ELSE IF par[1] = "residue" THEN MkResidue(par) ELSE MkCapture(par)
 cParams == ({"path"} \X PathsUpTo(Kinds, Depth) \X Focals)
            \cup ({"residue"} \X PathsUpTo(Kinds, 1) \X {"fail", "ok"})
            \cup ({"capture"} \X RKinds \X {"none", "k", "kv"} \X {":=", "="})
            \cup ({"builtin"} \X {"plain", "shadow", "global"} \X PathsUpTo(Kinds, 1))
+           \cup ({"capture2"} \X (RKinds \ {"custom", "customidx", "chan"}) \X {"none", "k", "kv"})
            \cup ({"mapalias"} \X {"ab", "ba"} \X {":=", "="})
 =============================================================================
